@@ -223,4 +223,5 @@ def check(ctx, R):
     R.run("C03.c", rule_c, ctx)
     from . import c17
     R.run("C17.a", c17.rule_a, ctx, "C03.d")
+    R.run("C03.e", c17.rule_c, ctx, "C03.e")
     return {}
